@@ -16,6 +16,12 @@ let frame_check ~id (f : itree) (h : itree) : bool =
         (result id "VIOL" "frame" (Printf.sprintf "node %d changed parent/children/value" nd.idx); false)
       else true) f.nodes
 
+(* the frame relation of C02_frame, decided by the extracted, proved-sound checker (Pwl/ArenaFrameCheck.v) on the two
+   dumped arenas *)
+let frame_check_verified ~id (f : itree) (h : itree) : bool =
+  if extendsb (arena_of f) (arena_of h) then true
+  else (result id "VIOL" "frame" "the result arena does not extend the receiver's arena (index / parent / children / cached state / decision value of a node changed)"; false)
+
 let check (case : Sexp.t) : unit =
   match case with
   | List [Atom "case"; Atom id; Atom "compose"; Atom k; sf; sg; sg2; Atom oc; sh; List (Atom "pts" :: pts)] ->
@@ -42,7 +48,7 @@ let check (case : Sexp.t) : unit =
               let ok1 = equiv_check ~id ~tag:"compose-law" n th spec in
               let ok2 = if Sexp.to_string sg = Sexp.to_string sg2 then true
                 else (result id "VIOL" "right-operand" "right operand changed"; false) in
-              let ok3 = frame_check ~id f h in
+              let ok3 = frame_check ~id f h && frame_check_verified ~id f h in
               let ok4 = points_check ~id ~tag:"evaluate" th pts in
               if not (ptree_eq th spec) then bump "mirror_mismatch" else bump "mirror_agree";
               (* arena-level model (Pwl/ArenaCompose.v: update_node / add_child_node on the dumped arena, keys from the
@@ -80,7 +86,7 @@ let check (case : Sexp.t) : unit =
             | Some th ->
               let spec = apply_func a tf in
               let ok1 = equiv_check ~id ~tag:"apply_func-law" n th spec in
-              let ok3 = frame_check ~id f h in
+              let ok3 = frame_check ~id f h && frame_check_verified ~id f h in
               let ok4 = points_check ~id ~tag:"evaluate" th pts in
               if not (ptree_eq th spec) then bump "mirror_mismatch" else bump "mirror_agree";
               if ok1 && ok3 && ok4 then result id "OK" "apply_func" ""
